@@ -40,6 +40,23 @@ def c04_health(op, impl, model):
     return None
 
 
+def c13_health(op, impl, model):
+    """risk.pulse: the liquidation buffer. Collateral counted toward the INITIAL requirement with more weight than the exact
+    evaluation gives (e-mode entries reconciled entry-wise to the minimum over the debt banks, bank weights, init-limit discount)
+    while the maintenance side is not raised with it: borrowing to that limit leaves the account liquidatable at once."""
+    if not op.startswith("risk.pulse"):
+        return None
+    i, m = _nums(impl), _nums(model)
+    if not i or not m or len(i) < 12 or len(m) < 12:
+        return None
+    if i[6] in (0, 6009) and m[6] in (0, 6009) and i[9] == m[9] and i[0] > m[0] and i[2] <= m[2] and i[1] == m[1]:
+        return (f"C13 collateral counts {i[0]} bits toward the initial requirement where the exact evaluation (e-mode entries reconciled to the "
+                f"entry-wise minimum over the banks borrowed from, initial weight never above maintenance weight) gives {m[0]}, with the "
+                f"maintenance value not raised ({i[2]} vs {m[2]}): an account that borrows up to this initial limit "
+                f"{'fails' if m[0] < m[1] <= i[0] else 'can fail'} the maintenance check at equal prices — no liquidation buffer: {op}")
+    return None
+
+
 def c05_health(op, impl, model):
     if not op.startswith("risk.pulse"):
         return None
@@ -269,8 +286,9 @@ def c05_conditions(op, impl, model):
     if op.startswith("risk.postliq"):
         if impl.startswith("ok") and model.startswith("err 6072"):
             pre = op.split()[2]
-            return (f"C05 the post-liquidation condition ACCEPTS a liquidation after which maintenance health ({impl.split()[1]} bits) is not strictly "
-                    f"better than before ({pre} bits): {op[:400]}")
+            return (f"C05 the post-liquidation condition ACCEPTS a liquidation after which maintenance health, by exact evaluation of the portfolio, is not "
+                    f"strictly better than before ({pre} bits; the implementation's own figure for afterwards: {impl.split()[1]} bits — it values the "
+                    f"portfolio differently from the exact evaluation): {op[:400]}")
         if impl.startswith("ok") and model.startswith("err 6071"):
             return f"C05 the post-liquidation condition accepts an account that is POSITIVE at maintenance level afterwards: {op[:400]}"
         if impl.startswith("ok") and model.startswith("err"):
@@ -532,6 +550,7 @@ def world_rule(pid):
         "C10": {6090: "of zero-weight collateral from an account in receivership", 6057: "from an account in receivership at a non-positive price",
                 6035: "(a deposit / borrow) on an account in receivership"},
         "C01": {6094: "through a vault that is not the bank's liquidity vault"},
+        "C09": {6057: "from an account in receivership at a zero or negative (or undefined) collateral price"},
     }
     NAMES = {"wd.dep": "deposit", "wd.wd": "withdrawal", "wd.bor": "borrow", "wd.rep": "repayment", "wd.close": "balance closure"}
     def f(op, impl, model):
@@ -601,6 +620,7 @@ def world_rule2(pid):
                 6072: "without improving the account's health", 6009: "leaving the LIQUIDATOR initially unhealthy", 6012: "of amount zero",
                 6057: "at a non-positive collateral price", 6058: "at a non-positive debt price"},
         "C14": {6080: "while the protocol-wide pause is in force", 6016: "touching a paused bank", 6084: "touching a bank killed by bankruptcy"},
+        "C09": {6057: "sized at a zero or negative collateral price", 6058: "sized at a zero or negative debt price"},
         "C08": {6042: "for a signer not entitled to act for the liquidator", 6103: "for the authority of a frozen liquidator account", 6093: "with an account or bank of another group"},
         "C10": {6089: "while one of the two accounts is in receivership"},
         "C11": {6037: "of an account that is inside a flash loan"},
@@ -748,12 +768,12 @@ def world_rule3(pid):
 
 WITNESS = {
     "C04": [c04_health, emode_dupes("C04"), venue_v4("C04"), world_rule("C04")],
-    "C13": [emode_dupes("C13"), emode_leverage("C13"), accepted_invalid_curve("C13")],
+    "C13": [emode_dupes("C13"), emode_leverage("C13"), accepted_invalid_curve("C13"), c13_health],
     "C18": [accepted_invalid_curve("C18")],
     "C12": [accepted_invalid_curve("C12"), bracket_conditions("C12"), world_rule("C12"), world_rule3("C12")],
     "C05": [c05_health, c05_liq, value_scaling("C05"), c05_conditions, venue_v4("C05"), world_rule2("C05")],
     "C07": [c07_health, c07_soc, world_rule2("C07")],
-    "C09": [c09_health, venue_v4("C09")],
+    "C09": [c09_health, venue_v4("C09"), world_rule("C09"), world_rule2("C09")],
     "C16": [c16_foc, c16_tags, world_rule("C16"), world_rule2("C16"), world_rule3("C16")],
     "C03": [ixf_tokens("C03"), tf_mint("C03"), venue_booking("C03"), wrapper_free_value("C03"), world_rule("C03"), world_rule2("C03")],
     "C17": [c17_limits, world_rule("C17")],
